@@ -39,7 +39,7 @@ def run(res, replay=None):
                 'every entry of S, alpha, is_absorbing, reward vectors; non-trivial = space with more than one state; '
                 'distinct = distinct (configuration, space, epoch)')
     res.assumptions = ['rates compared exactly for Kingman (dyadic inputs), at 1e-11 relative for Beta/Dirac',
-                       'scaled Beta time scale taken from the implementation here and checked by C14']
+                       'scaled Beta time scale: documented formula evaluated with mpmath (40 digits), independent of the implementation']
     if replay:
         specs = [replay['replay']['spec']]
     else:
